@@ -204,7 +204,7 @@ def build_traces(path, tier, seed):
 def run(tier, seed):
     rep = Report("C07", tier, seed)
     wd = workdir("C07")
-    maxlen = 6 if tier == "quick" else 8
+    maxlen = 6 if tier == "quick" else 9
     tab = os.path.join(wd, "table.txt")
     with warnings.catch_warnings():
         warnings.simplefilter("ignore")
